@@ -121,11 +121,11 @@ RunRecord run_driver(const sim::Json& sc) {
           }
         } catch (const mp::Error& e) { fmt::print(stderr, "Error: {}\n", e.what()); rec.ret = e.exit_code(); }
         catch (const std::exception& e) { fmt::print(stderr, "Error: {}\n", e.what()); rec.ret = EXIT_FAILURE; }
-      } else if (sc["driver"].as_str() == "direct") {
+      } else if (sc["driver"].as_str() == "direct" || sc["driver"].as_str() == "lean") {
         // a driver whose main() uses the application class itself instead of the RunBackendApp() helper
         // (same exception mapping; nothing but construction and Run)
         try {
-          mp::BackendApp app(CreateSimBackend());
+          mp::BackendApp app(sc["driver"].as_str() == "lean" ? CreateLeanBackend() : CreateSimBackend());
           rec.ret = app.Run(argv.data());
           // history: the application hands the same backend another model file (here: the same one again)
           for (long q = 0; q < sc["rerun_backend"].as_int(0); ++q) {
